@@ -1013,6 +1013,27 @@ func run(c *hc.Ctx) error {
 		add(line, strings.Join(outs, " "))
 	}
 
+	// ---- 3e. Bytes() must return a copy ("it's safe to modify it"); Int128/Int256 are values
+	for i := 0; i < c.N(2000, 20000); i++ {
+		v := r.Bytes(hc.Pick(r, 1, 3, 4, 253, 254, r.Range(1, 600)))
+		var b bin.Buffer
+		b.PutBytes(v)
+		src := append([]byte{}, b.Buf...)
+		got, err := (&bin.Buffer{Buf: src}).Bytes()
+		c.Eval(fmt.Sprintf("alias bytes len=%d #%d", len(v), i), true)
+		c.Count("alias.bytes")
+		if err != nil {
+			c.Fail("roundtrip:bytes", "enc bytes "+hc.Hex(v), err.Error())
+			continue
+		}
+		for j := range src {
+			src[j] ^= 0xff
+		}
+		if !bytes.Equal(got, v) {
+			c.Fail("bytes-aliases-buffer", "enc bytes "+hc.Hex(v), "the slice returned by Bytes() changed when the source buffer was overwritten")
+		}
+	}
+
 	// ---- 4. length prefixes up to 2^24-1 (no payload through the pipe)
 	lens := []int{0, 1, 2, 3, 4, 252, 253, 254, 255, 256, 257, 65535, 65536, 65537, 1 << 20, 1<<24 - 5, 1<<24 - 4, 1<<24 - 3, 1<<24 - 2, 1<<24 - 1}
 	extra := c.N(40, 400)
